@@ -12,52 +12,34 @@ ee065f4:C02
 1046ee8:C02
 4eb59d7:C12,C02,C14
 12b19a6:C02,C12,C14
-c771c24+b475a6a+9cbccb0:C11
-5f18c17:C03
-@b475a6a:C03
 01a5b3a:C15
 1e71232:C03
-c771c24+b475a6a+4ab7118:C04
-5ed6555:C04
 f71b223:C04
 fabf450:C06
 fa6515c:C13
 9e0b66c:C16
 f149e2e:C17
 4412a0c:C17
-c771c24+b475a6a+554f99c:C18
-c771c24+b475a6a+1a12fdf:C18
-c771c24+cc1a74c:C18
-c771c24+b475a6a+879059a:C18
 593f13e:C19
 ebca082:C11
 1c7ddb0:C11
 c71c10d:C11
-c771c24+4f1e3aa:C18
-c771c24:C03
-a9cca78:C03
 d8b1973:C03
 6c9bd9d:C16
 6d4d59c:C18
 e4dd127+b46c565:C18
-71b549e:C11
 b2d86c5:C11
-da90b3f:C11
 f66a656:C15
 09c7560:C15
-8f453e5:C08
 e4dd127:C12,C03
 b3305a6:C04,C05
-6a27050:C18
 08bbdb4:C05,C06
 24c2f53:C05
 26b3e7e:C11
 f741aba:C11
-01c9b75:C11
 63af0f8:C11
 9944225:C08
 83acbbb:C04
-3e38392:C11
 95e93be:C08
 eae3b07:C11
 e2a2e4c:C11
@@ -65,7 +47,16 @@ e2a2e4c:C11
 da05acb:C06
 9a95cc4:C18,C05,C06
 f907567:C03
+@5f18c17:C03
+@b475a6a:C03
+@c771c24:C03
+@a9cca78:C03
+@8f453e5:C08
 "
+# Fixes whose lines were rewritten by later fixes can no longer be reverted on HEAD; for them
+# tools/revert_hist.sh compares /repo's tree at the commit with the tree at its parent (see there).
+HIST="9cbccb0:C11 4ab7118:C04 5ed6555:C04 554f99c:C18 1a12fdf:C18 cc1a74c:C18 879059a:C18 4f1e3aa:C18 71b549e:C11 da90b3f:C11 6a27050:C18 01c9b75:C11 3e38392:C11"
+if [ "${1:-}" = "--hist" ]; then shift; : > selftest/revert_hist_report.txt; exec tools/revert_hist.sh ${*:-$HIST}; fi
 if [ -n "$(git -C /repo status --porcelain)" ]; then echo "/repo is not clean"; exit 2; fi
 mkdir -p selftest
 OUT=selftest/revert_report.txt
